@@ -19,7 +19,7 @@ EXHAUSTIVE = False
 ASSUMPTIONS = ["a Packet is a [188]byte value; data slices have cap = len",
                "views vs copies (aliasing) are observed by goexec only: function Payload/Header return views, method Payload a copy",
                "the model follows /root/work/repo-fixed (F6, F7 repaired, C05 guards)"]
-PARTIAL = ("SetAdaptationFieldControl transitions other than 01->10, 01->11 and 11->11, and Create with arbitrary option lists "
+PARTIAL = ("SetAdaptationFieldControl transitions other than 01->10, 01->11, 10->11 and 11->11, and Create with arbitrary option lists "
            "(incl. WithPES) are tied by the correspondence only (fidelity cases)")
 
 FLAG_PCR, FLAG_OPCR, FLAG_SPLICE, FLAG_TPD, FLAG_EXT = 0x10, 0x08, 0x04, 0x02, 0x01
@@ -106,6 +106,11 @@ def gen(rng, tier):
         ls.append(logical(rng, afc=3, want_len=L))
     for _ in range(6):
         ls.append(logical(rng, afc=3, want_len=0))
+    # adaptation-field-only packets without any stuffing (SetAdaptationFieldControl(11) must fail on them)
+    for _ in range(3):
+        hdr = [0x47, 0, 0, 0, rng.randrange(8192), 0, 2, rng.randrange(16)]
+        ls.append(dict(hdr=hdr, af=(rng.randrange(8), None, None, None, rb(rng, 181), None, b""), payload=b""))
+        ls.append(dict(hdr=hdr, af=(rng.randrange(8), rb(rng, 6), None, 7, rb(rng, 100), rb(rng, 73), b""), payload=b""))
     pk = serialise(ls)
     for l, (p, wf) in zip(ls, pk):
         assert wf and len(p) == 188, (l, p)
@@ -127,9 +132,9 @@ def gen(rng, tier):
                 out.append(Case("pay.set %s %s" % (hx(p), hx(d)), kind=kind, theorem="C02_set_payload_ok" if ln > 0 else "C02_set_payload_empty"))
         for v in (1, 2, 3):
             if rng.random() < 0.5 or thorough:
-                proved = (afc == 1 and v in (2, 3)) or (afc == 3 and v == 3)
+                proved = (afc == 1 and v in (2, 3)) or (afc in (2, 3) and v == 3)
                 out.append(Case("pay.set_afc %s %d" % (hx(p), v), kind="set-afc" if proved else "fidelity-set-afc-other", decides=proved,
-                                nontrivial=proved, theorem="C02_set_afc_creates" if afc == 1 else ("C02_set_afc3_noop" if proved else "")))
+                                nontrivial=proved, theorem="C02_set_afc_creates" if afc == 1 else (("C02_set_afc3_noop" if afc == 3 else "C02_set_afc3_on_af_only") if proved else "")))
         if rng.random() < 0.3:
             out.append(Case("pay.set_fn %s %s" % (hx(p), hx(rb(rng, rng.randrange(201)))), kind="set-fn", theorem="C02_set_payload_fn"))
     # ---- malformed packets: fidelity only
